@@ -443,3 +443,21 @@ package compile
 //@   requires c != nil && mod != nil && nod != nil && use != nil
 //@   modifies *
 //@   callsite @assertReferenceStatus group == node_grouping(ite(gmod == mod, nod, gmod), gname.Local)
+
+// Every must / when statement gets a machine compiled from ITS OWN expression (C15: "a schema compiles only if every
+// must, when and leafref path is syntactically valid"): the machine handed to the schema node was built in this
+// iteration from this statement's text (the configd:must extension text when that compiles, the must text otherwise).
+//@ func (*Compiler).extendMust
+//@   assumed
+//@   nopanic
+//@ func (*Compiler).createPathEvalMachine
+//@   assumed
+//@   modifies *
+//@ func (*Compiler).BuildMusts
+//@   requires c != nil && n != nil
+//@   modifies *
+//@   callsite @NewMustContext mustMachine != nil && (mach_expr(mustMachine) == baseMustExpr || (extMustExpr != "" && mach_expr(mustMachine) == extMustExpr))
+//@ func (*Compiler).BuildWhens
+//@   requires c != nil && n != nil
+//@   modifies *
+//@   callsite @NewWhenContext whenMachine != nil
